@@ -180,6 +180,9 @@ class Executor:
         return Ptr(oid, 0)
     def global_ptr(self, st, name):
         key = ("g", name)
+        g0 = self.mod.globals.get(name)
+        if g0 is not None and getattr(g0, "tls", False):
+            key = ("g", name, "thread", st.cur)          # thread_local: one instance per thread, each initialised from the initialiser
         if key in st.mem: return Ptr(key, 0)
         g = self.mod.globals.get(name)
         if g is None:
